@@ -83,6 +83,15 @@ Fixpoint exec_s (fuel : nat) (s : stmt) (env : genv) {struct fuel} : option (gen
               else exec_rv f n vstart vstep vstop b (upd env n VNone)
           | _, _, _ => None
           end
+      | SForIter None t e b =>
+          match t with
+          | TStr | TArr | TMap =>
+              match eval_expr env e with
+              | Some iter => exec_i f 0%float iter b env
+              | None => None
+              end
+          | _ => None
+          end
       | SForIter (Some n) t e b =>
           (* over the elements of an array / the characters of a string / the keys of a map *)
           match t with
@@ -147,6 +156,22 @@ with exec_rv (fuel : nat) (n : str) (idx stp stop : float) (b : slist) (env : ge
         end
       else Some (env, false)
   end
+(* `for range iter` (no loop variable), from (float) index idx on *)
+with exec_i (fuel : nat) (idx : float) (iter : value) (b : slist) (env : genv) {struct fuel} : option (genv * bool) :=
+  match fuel with
+  | O => None
+  | S f =>
+      match iter_next iter idx with
+      | Some (Some _) =>
+          match exec_l f b env with
+          | Some (env1, false) => exec_i f (idx + 1)%float iter b env1
+          | Some (env1, true) => Some (env1, false)
+          | None => None
+          end
+      | Some None => Some (env, false)
+      | None => None
+      end
+  end
 (* `for n := range iter`, from (float) index idx on *)
 with exec_iv (fuel : nat) (n : str) (idx : float) (iter : value) (b : slist) (env : genv) {struct fuel} : option (genv * bool) :=
   match fuel with
@@ -210,6 +235,7 @@ Fixpoint wfrag_stmt (s : stmt) : bool :=
       efrag c && wfrag_slist b && wfrag_clist elifs && match els with NoElse => true | Else eb => wfrag_slist eb end
   | SWhile c b => efrag c && wfrag_slist b
   | SForStep None start stop step b => ofrag start && efrag stop && ofrag step && wfrag_slist b
+  | SForIter None t e b => match t with TStr | TArr | TMap => efrag e && wfrag_slist b | _ => false end
   | _ => false
   end
 with wfrag_slist (l : slist) : bool :=
